@@ -24,6 +24,9 @@ import Golib.Cal.TableProof
 import Golib.Cal.HelperProof
 import Golib.Cal.YmdProof
 import Golib.Cal.DateFormatProof
+import Golib.Cal.TableStruct
+import Golib.Cal.CivilSucc
+import Golib.Cal.DateFormatObjProof
 
 namespace C19
 open Cal
@@ -59,7 +62,36 @@ theorem spec_day_by_day (i : Nat) (h : i < 36525) :
     Gregorian leap rule of the year 2000 + offset -/
 theorem leap_rule_ok (y : Nat) (h : y < 100) : isYun y = isLeap (2000 + y) := isYun_is_leap y h
 
+/-- date ↦ day number ↦ date is the identity on every date of the Gregorian calendar from 1970 on
+    (structural; with `spec_inverse` this makes `civil` a bijection between day numbers and dates) -/
+theorem spec_inverse_left (y m d : Nat) (hy : 1970 ≤ y) (hv : ValidDate y m d) :
+    civil (daysFromCivil y m d) = ⟨y, m, d⟩ := civil_days y m d hy hv
+
+/-- **for every day number** (not only the century, and without evaluation): `civil z` is a valid
+    date and the next day number is the next date by the textbook rule.  With `civil 0 = 1970-01-01`
+    this determines `civil` completely: the Spec *is* the proleptic Gregorian calendar. -/
+theorem spec_day_by_day_all (z : Nat) :
+    ValidDate (civil z).y (civil z).m (civil z).d ∧ civil (z + 1) = nextDay (civil z) :=
+  ⟨(civil_day_by_day z).1, (civil_day_by_day z).2.2⟩
+
+/-- `isYun` on the offset is the Gregorian rule of the year for **every** offset (2000 ≡ 0 mod 400) -/
+theorem leap_rule_all (y : Nat) : isYun y = isLeap (y + 2000) := isYun_eq_isLeap y
+
 /-! ## the table built by open() -/
+
+/-- **the algorithm of open() is the calendar, for any number of years** (structural: induction
+    over the three loops + the calendar bijection; no evaluation).  Running the year loop for `n`
+    years from the initial state yields, in order, exactly the Spec days from 2000-01-01 up to
+    (but excluding) (2000+n)-01-01 — date, weekday index and start instant. -/
+theorem open_is_calendar_any_years (n : Nat) :
+    ∃ len, ((yearLoop n 0 St.init).1.map List.flatten).flatten = (List.range' 0 len).map specDay ∧
+      10957 + len = daysFromCivil (2000 + n) 1 1 := open_loop_is_calendar n
+
+/-- the century instance derived from the structural theorem alone; `table_is_calendar` below is the
+    same statement obtained by kernel evaluation per year — two independent proofs -/
+theorem table_is_calendar_structural : dateTable = (List.range' 0 36525).map specDay :=
+  dateTable_eq_structural
+
 
 /-- **table_is_calendar**: the 36 525 entries that open() stores in `dateTable`, in order, are
     exactly the days 2000-01-01 … 2099-12-31 of the Spec calendar — year, month, day, weekday
@@ -217,6 +249,66 @@ theorem finding_D41 :
     ¬ (parse "y-m-d".toList (fieldsOf 1790642034141) (format "y-m-d".toList (fieldsOf 1709210096789))
         = some (truncTo "y-m-d".toList 1709210096789)) := by decide +kernel
 
+/-- the statement of `format_parse_partial` quantifies over *every* pattern: letters may repeat
+    ("yy" prints and reads the year twice), literal runes may be anything that is not one of the
+    seven letters (digits, other letters, non-ASCII), in any position -/
+example : ∀ c ∈ ['y', 'm', 'd', 'H', 'M', 'S', 's'], c ∈ "y년m월d일 H:M:S.s (y) 0Tx→m".toList := by decide
+example : parse "yy-m-d H:M:S.s,s".toList Fields.origin
+    (format "yy-m-d H:M:S.s,s".toList (fieldsOf 1709210096789)) = some 1709210096789 :=
+  format_parse_partial _ _ _ (by decide) (by decide)
+
+/-! ## the DateFormat object: signed fields, the map that survives between Parse calls -/
+
+/-- `strconv.Atoi` as `ToInt` uses it: an optional sign is accepted, so a field text "-5" is -5 -/
+theorem atoi_signs : atoiZ "-5".toList = some (-5) ∧ atoiZ "+7".toList = some 7 ∧ atoiZ "07".toList = some 7 ∧
+    atoiZ "-".toList = none ∧ atoiZ "5-".toList = none ∧ atoiZ [] = none := by decide
+
+/-- unsigned digit strings mean the same to the signed and the unsigned model -/
+theorem atoi_unsigned (cs : List Char) (v : Nat) (h : atoiNat cs = some v) : atoiZ cs = some (v : Int) :=
+  atoiZ_of_atoiNat cs v h
+
+/-- Parse after format on an object with **any** prior map `st`: present letters from the text,
+    absent letters from the map if it has them, else from the clock; afterwards the map is full -/
+theorem obj_format_parse (st : PStateZ) (pat : List Char) (f now : Fields) (hf : FieldsOk f) :
+    (parseObj st pat now (format pat f)).2 = some (dateToMsZ (mergeZ pat f st now)) ∧
+    (parseObj st pat now (format pat f)).1.Full := parseObj_format st pat f now hf
+
+/-- with all seven letters the identity holds on every object, fresh or reused -/
+theorem obj_format_parse_all (st : PStateZ) (pat : List Char) (now : Fields) (t : Nat)
+    (h1 : 365 * MS_DAY ≤ t) (h2 : t < 2900000 * MS_DAY)
+    (hall : ∀ c ∈ ['y', 'm', 'd', 'H', 'M', 'S', 's'], c ∈ pat) :
+    (parseObj st pat now (format pat (fieldsOf t))).2 = some (t : Int) :=
+  parseObj_format_all st pat now t h1 h2 hall
+
+/-- a fresh object is the model of the `format_parse_*` theorems -/
+theorem obj_fresh (pat : List Char) (now : Fields) (t : Nat) (h1 : 365 * MS_DAY ≤ t)
+    (h2 : t < 2900000 * MS_DAY) (hn : CalFields now) :
+    (parseObj {} pat now (format pat (fieldsOf t))).2 = (parse pat now (format pat (fieldsOf t))).map Int.ofNat :=
+  parseObj_fresh pat now t h1 h2 hn
+
+/-- after any successful Parse the map holds all seven keys … -/
+theorem obj_success_fills (st : PStateZ) (pat : List Char) (now : Fields) (inp : List Char)
+    (h : (parseObj st pat now inp).2.isSome) : (parseObj st pat now inp).1.Full :=
+  parseObj_success_full st pat now inp h
+
+/-- … and on a full map the clock is never consulted: the result is the same for any two clock
+    readings (absent fields are the ones stored by the earlier call) -/
+theorem obj_reuse_ignores_clock (st : PStateZ) (pat : List Char) (f now₁ now₂ : Fields) (hf : FieldsOk f)
+    (hfull : st.Full) :
+    (parseObj st pat now₁ (format pat f)).2 = (parseObj st pat now₂ (format pat f)).2 :=
+  parseObj_reuse st pat f now₁ now₂ hf hfull
+
+/-- **finding_reuse** (same family as D41) — one object, pattern "y-m-d":
+    Parse("2024-02-29") at 2026-09-29T00:33:54.141Z, then Parse("2025-03-01") a day and some hours
+    later (2026-09-30T00:34:04.999Z): the second result is 2025-03-01T00:33:54.141Z — the time of
+    day of the *first* call's clock, neither the truncation nor the second call's clock -/
+theorem finding_reuse :
+    parseHistory "y-m-d".toList {} [(fieldsOf 1790642034141, "2024-02-29".toList),
+      (fieldsOf 1790728444999, "2025-03-01".toList)] = [some 1709166834141, some 1740789234141] ∧
+    (1740789234141 : Int) ≠ 1740787200000 ∧
+    (parseObj {} "y-m-d".toList (fieldsOf 1790728444999) "2025-03-01".toList).2 = some 1740789244999 := by
+  decide +kernel
+
 /-! ## non-vacuity -/
 
 example : InCentury 946684800000 ∧ InCentury 4102444799999 ∧ ¬ InCentury 4102444800000 := by decide
@@ -225,5 +317,9 @@ example : ∀ c ∈ ['y', 'm', 'd', 'H', 'M', 'S', 's'], c ∈ "y-m-d H:M:S.s".t
 example : format "y-m-d H:M:S.s".toList (fieldsOf 1709210096789) = "2024-02-29 12:34:56.789".toList := by
   decide +kernel
 example : hmsOf 45296789 = ⟨12, 34, 56, 789⟩ := by decide
+example : ValidDate 2024 2 29 ∧ ¬ ValidDate 2023 2 29 ∧ ¬ ValidDate 2100 2 29 := by decide
+example : (365 * MS_DAY ≤ 1709210096789) ∧ CalFields (fieldsOf 1790642034141) := by decide +kernel
+example : (PStateZ.fill {} (fieldsOf 1790642034141)).Full := fill_full _ _
+example : FieldsOk (fieldsOf 1709210096789) := fieldsOf_ok' _ (by decide)
 
 end C19
